@@ -234,6 +234,73 @@ fn group_selected(name: &str) -> bool {
     }
 }
 
+
+/// What the coverage-guided driver learns about one input.
+#[derive(Debug)]
+pub enum FuzzVerdict {
+    Pass,
+    Discarded,
+    /// a failure listed in known_findings.json (tolerated, search continues)
+    Known(String),
+    /// (signature, detail)
+    Violation(String, String),
+    HarnessPanic(String),
+}
+
+type FuzzFn = dyn Fn(&[u8]) -> FuzzVerdict + Send + Sync;
+static FUZZ_CASE: std::sync::OnceLock<&'static FuzzFn> = std::sync::OnceLock::new();
+
+/// The case function of the parked group (None until the runner thread reached it).
+pub fn fuzz_case() -> Option<&'static FuzzFn> {
+    FUZZ_CASE.get().copied()
+}
+
+impl Ctx {
+    /// listing / fuzz-mode interception shared by `group` and `group_isolated`; true = handled
+    fn intercept<F>(&self, name: &str, source: &Source, f: &F) -> bool
+    where
+        F: Fn(&mut Tape, &mut Rec) -> CaseResult + Sync,
+    {
+        if self.list_groups {
+            match source {
+                Source::Random { n, tape_len } => println!("GROUP {} random n={} tape_len={}", name, n, tape_len),
+                Source::Indexed { count } => println!("GROUP {} indexed count={}", name, count),
+            }
+            return true;
+        }
+        let Some(g) = &self.fuzz_group else { return false };
+        if g != name {
+            return true;
+        }
+        let case = move |data: &[u8]| -> FuzzVerdict {
+            let (rec, hp) = self.run_one(f, data, false);
+            if let Some(hp) = hp {
+                return FuzzVerdict::HarnessPanic(hp);
+            }
+            if let Some(fl) = rec.fails.iter().find(|fl| self.is_known(&fl.sig).is_none()) {
+                return FuzzVerdict::Violation(fl.sig.clone(), fl.detail.clone());
+            }
+            if let Some(fl) = rec.fails.first() {
+                return FuzzVerdict::Known(fl.sig.clone());
+            }
+            if rec.discard {
+                FuzzVerdict::Discarded
+            } else {
+                FuzzVerdict::Pass
+            }
+        };
+        let boxed: Box<dyn Fn(&[u8]) -> FuzzVerdict + Send + Sync + '_> = Box::new(case);
+        // SAFETY: this thread parks forever below, so everything the closure borrows (the context,
+        // the group's captured state) stays alive for as long as the process runs.
+        let short: &(dyn Fn(&[u8]) -> FuzzVerdict + Send + Sync + '_) = Box::leak(boxed);
+        let leaked: &'static FuzzFn = unsafe { std::mem::transmute(short) };
+        let _ = FUZZ_CASE.set(leaked);
+        loop {
+            std::thread::park();
+        }
+    }
+}
+
 #[derive(Default)]
 struct GroupStats {
     evaluations: u64,
@@ -265,6 +332,12 @@ pub struct Ctx {
     known: Vec<Known>,
     replay: Option<ReplayReq>,
     pub worker: Option<WorkerReq>,
+    /// worker deaths that are not verdicts: (all of these substrings in the worker's stderr, reason)
+    pub tolerated_aborts: Mutex<Vec<(Vec<String>, String)>>,
+    /// coverage-guided driver: park in this group and hand its case function to the fuzzer
+    pub fuzz_group: Option<String>,
+    /// listing mode: only print the groups (name, source) and return
+    pub list_groups: bool,
     acc: Mutex<Acc>,
     start: Instant,
     stop_all: AtomicBool,
@@ -315,6 +388,9 @@ impl Ctx {
             known,
             replay,
             worker: None,
+            tolerated_aborts: Mutex::new(Vec::new()),
+            fuzz_group: None,
+            list_groups: false,
             acc: Mutex::new(Acc::default()),
             start: Instant::now(),
             stop_all: AtomicBool::new(false),
@@ -333,6 +409,11 @@ impl Ctx {
     }
     pub fn assume(&self, s: &str) {
         self.assumptions.lock().unwrap().push(s.to_string());
+    }
+    /// A worker death whose stderr contains all of `patterns` is counted under the class
+    /// `tolerated-abort:<why>` instead of being reported (isolated groups only).
+    pub fn tolerate_worker_abort(&self, patterns: &[&str], why: &str) {
+        self.tolerated_aborts.lock().unwrap().push((patterns.iter().map(|s| s.to_string()).collect(), why.to_string()));
     }
     pub fn note(&self, key: &str, v: Value) {
         self.acc.lock().unwrap().notes.insert(key.to_string(), v);
@@ -381,6 +462,9 @@ impl Ctx {
     where
         F: Fn(&mut Tape, &mut Rec) -> CaseResult + Sync,
     {
+        if self.intercept(name, &source, &f) {
+            return;
+        }
         if self.stop_all.load(Ordering::Relaxed) || self.worker.is_some() || !group_selected(name) {
             return;
         }
@@ -497,6 +581,9 @@ impl Ctx {
     where
         F: Fn(&mut Tape, &mut Rec) -> CaseResult + Sync + Send,
     {
+        if self.intercept(name, &source, &f) {
+            return;
+        }
         if self.worker.is_none() && self.replay.is_none() && !group_selected(name) {
             return;
         }
@@ -638,8 +725,16 @@ impl Ctx {
                         use std::io::Read;
                         let mut v = Vec::new();
                         let _ = stderr.read_to_end(&mut v);
+                        // keep the first line-ish part (the fatal message) and the end (the backtrace tail)
                         let s = String::from_utf8_lossy(&v).to_string();
-                        s.chars().rev().take(600).collect::<String>().chars().rev().collect::<String>()
+                        let n = s.chars().count();
+                        if n <= 5000 {
+                            s
+                        } else {
+                            let head: String = s.chars().take(400).collect();
+                            let tail: String = s.chars().skip(n - 4600).collect();
+                            format!("{head} [...] {tail}")
+                        }
                     });
                     let mut inflight: Option<u64> = None;
                     let mut checkpoint = String::new();
@@ -691,6 +786,17 @@ impl Ctx {
                         if timed_out {
                             results.lock().unwrap().push(CaseOut { idx, rec, harness_panic: Some(format!("watchdog: no progress for {} s in case {} (site {:?}) - inconclusive", watchdog.as_secs(), idx, checkpoint)) });
                         } else {
+                            let tolerated = self.tolerated_aborts.lock().unwrap().iter().find(|(pats, _)| pats.iter().all(|p| err_tail.contains(p.as_str()))).map(|(_, why)| why.clone());
+                            if let Some(why) = tolerated {
+                                rec.labels.push(format!("tolerated-abort:{why}"));
+                                rec.desc = None;
+                                results.lock().unwrap().push(CaseOut { idx, rec, harness_panic: None });
+                                next = idx + 1;
+                                if next < end {
+                                    queue.lock().unwrap().push_front((next, end));
+                                }
+                                continue;
+                            }
                             let kind = if err_tail.contains("overflowed its stack") {
                                 "stack-overflow".to_string()
                             } else if err_tail.contains("memory allocation of") {
@@ -700,7 +806,7 @@ impl Ctx {
                                 format!("terminated-by-signal-{}", status.and_then(|s| s.signal()).unwrap_or(0))
                             };
                             rec.desc = Some(format!("case {} aborted the worker process; tape {}", idx, hex::encode(make_tape(idx))));
-                            rec.fails.push(Fail { sig: format!("{}:abort:{}@{}", self.prop, kind, if checkpoint.is_empty() { "?" } else { &checkpoint }), detail: format!("worker process died in case {} ({}); stderr tail: {}", idx, kind, err_tail.replace('\n', " | ")) });
+                            rec.fails.push(Fail { sig: format!("{}:abort:{}@{}", self.prop, kind, if checkpoint.is_empty() { "?" } else { &checkpoint }), detail: format!("worker process died in case {} ({}); stderr: {}", idx, kind, err_tail.chars().take(900).collect::<String>().replace('\n', " | ")) });
                             results.lock().unwrap().push(CaseOut { idx, rec, harness_panic: None });
                         }
                         next = idx + 1;
